@@ -2,8 +2,10 @@ import daemon
 
 
 def run(ctx):
-    return daemon.run(ctx, "C05", "c05", {"crash", "crash_inside_request", "probe", "sigkill", "detach"}, [
+    return daemon.run(ctx, "C05", "c05", {"crash", "crash_inside_request", "probe", "sigkill", "detach", "db_write_fault"}, [
         "crash points: after the pod lookup, before/after every cloud call of the pool, before/after every Put/Delete; at each of them a probe "
         "restarts a second daemon from copies and asks for an address for every pod; armed crash points and kills additionally continue the history",
         "a crash in the middle of a bolt write is sampled by SIGKILL of a child process streaming Put/Delete through the real storage, not enumerated",
+        "database write faults: the bolt Put/Delete of a request fails before any effect (injected in the recording store wrapper); a request whose "
+        "write failed must not be acknowledged; the address such an ADD leaves with the pool until the retry or the restart is not judged",
         "C05 scenarios contain no cancelled requests (the property quantifies over crash points, not over cancellation)"])
